@@ -374,9 +374,10 @@ static const char* FIELDS[] = {"circuit", "name", "field"};
 struct Tmpl { string text; vector<int> order; };
 // all templates: optional prefix, fields in `order` separated by constants, optional suffix
 static vector<Tmpl> allTemplates() {
-  vector<string> consts = {"/", "ebusd/", "/x/"};
+  // "1/": a constant that starts with a digit directly behind a variable (a variable name consists of letters and '_')
+  vector<string> consts = {"/", "ebusd/", "/x/", "1/"};
   vector<string> prefixes = {"", "/", "ebusd/", "/x/"};
-  vector<string> suffixes = {"", "/s"};
+  vector<string> suffixes = {"", "/s", "2"};
   vector<vector<int>> orders;
   for (int mask = 1; mask < 8; mask++) {
     vector<int> idx;
@@ -408,7 +409,21 @@ static string checkTopic(const Tmpl& t, const string& c, const string& n, const 
   bool parsed = rep.parse(t.text, true, true);  // as MqttHandler does for the configured topic
   R.transitions++;
   if (log) printf("template <%s> parse=%d\n", t.text.c_str(), parsed);
-  if (!parsed) return "skip:template-rejected";  // e.g. %circuitebusd/ is an unknown field name
+  if (!parsed) {
+    // e.g. %circuitebusd/ is an unknown field name: a variable written without braces extends over the following
+    // letters and underscores.  Every other template of the enumeration names only the three known fields and
+    // has to be accepted (a refused template silently disables the whole topic scheme).
+    bool glued = false;
+    for (size_t p = t.text.find('%'); p != string::npos; p = t.text.find('%', p + 1)) {
+      if (p + 1 < t.text.size() && t.text[p + 1] == '{') continue;
+      size_t e = p + 1;
+      while (e < t.text.size() && (isalpha(static_cast<unsigned char>(t.text[e])) || t.text[e] == '_')) e++;
+      string nm = t.text.substr(p + 1, e - p - 1);
+      if (nm != "circuit" && nm != "name" && nm != "field") glued = true;
+    }
+    if (glued) return "skip:template-rejected";
+    return "template-refused/valid";
+  }
   bool matchable = rep.checkMatchability();
   if (log) printf("checkMatchability=%d\n", matchable);
   if (!matchable) return "skip:not-matchable";
